@@ -3,6 +3,14 @@ From Coq Require Import List String Bool Arith.
 From Saito Require Import PanicClass PanicSites Handlers.
 Import ListNotations.
 
+(* printed into the build log BEFORE the obligation, so that a failing table names the sites to look at:
+   sites without classification, exact entries whose site no longer exists, groups whose site count changed
+   (prefix, pinned, found), problems reported by the scanner itself *)
+Eval vm_compute in ("@@C11-TABLE unclassified:", unclassified PanicSites.sites,
+                    "stale entries:", stale_entries PanicSites.sites,
+                    "groups (prefix, pinned, found):", miscounted_groups PanicSites.sites,
+                    "scanner problems:", PanicSites.problems).
+
 Lemma table_ok_repo : table_ok PanicSites.sites PanicSites.crosscheck_ok = true.
 Proof. vm_compute. reflexivity. Qed.
 
